@@ -89,7 +89,7 @@ def jGetStr (j : J) (k : String) : Option Line :=
 /-! ## the line classifier -/
 
 /-- one passage header line -/
-def headerLine (line : Line) (i : Nat) (s : PSt) : PM PSt := do
+def headerLine (O : PyOracle) (line : Line) (i : Nat) (s : PSt) : PM PSt := do
   let header := stripL (strip (stripL (line.drop 3))).1
   let (nameWithTags, paramsStr) ← liftPy "extract_passage_params" (extractPassageParams header)
   let (name, tags) := parseTags nameWithTags
@@ -98,8 +98,10 @@ def headerLine (line : Line) (i : Nat) (s : PSt) : PM PSt := do
   | none => pure ()
   let params ←
     if paramsStr.isEmpty then pure []
-    else match (← liftPy "parse_passage_params" (parsePassageParams paramsStr)) with
+    else match (← liftPy "parse_passage_params"
+        (parsePassageParams (fun d => match O.expr d with | .ok => some true | .bad => some false | .miss => none) paramsStr)) with
       | .ok ps => pure ps
+      | .error (.oracleMiss d) => .error (.oracleMiss d)
       | .error _ => synErr i "Invalid Parameter"
   let locs := (s.locations.lookup name).getD []
   pure { s with
@@ -152,7 +154,7 @@ def coreLoop (O : PyOracle) (lines : Lines) : Nat → Nat → PSt → PM PSt
           | s =>
           if sw st "@start " then coreLoop O lines f (i + 1) { s with explicitStart := some (stripL (st.drop 7)) }
           else if sw line ":: " then do
-            let s ← headerLine line i s
+            let s ← headerLine O line i s
             coreLoop O lines f (i + 1) s
           else
             match s.curPassage with
@@ -298,8 +300,28 @@ def validateArgs (O : PyOracle) (passages : List (Line × PPassage)) : List (Lin
     validateJumps O passages p.content
     validateArgs O passages rest
 
-/-- `parse(source)` -/
-def parseText (O : PyOracle) (source : Line) : PM J := do
+/-- what `parse` has established when it returns -/
+structure Parsed where
+  initial : Line
+  passages : List (Line × PPassage)
+  metadata : List (Line × Line)
+  imports : List Line
+
+def hasRequiredParam (ip : PPassage) : Bool :=
+  ip.params.any (fun p => match p with
+    | .obj kvs => (match kvs.lookup "default" with | some .null => true | _ => false)
+    | _ => false)
+
+/-- `_determine_initial_passage` (the story has at least one passage here) -/
+def determineInitial (explicitStart : Option Line) (passages : List (Line × PPassage)) : PM Line :=
+  match explicitStart with
+  | some e => if passages.any (·.1 == e) then pure e else valErr "Start passage not found"
+  | none =>
+    if passages.any (·.1 == "Start".toList) then pure "Start".toList
+    else pure (match passages with | (k, _) :: _ => k | [] => [])
+
+/-- `parse(source)` up to the final dict -/
+def parseStory (O : PyOracle) (source : Line) : PM Parsed := do
   let lines : Lines := (stripDirectiveComments (splitNl source)).toArray
   -- three units of fuel per line (one per iteration, two handed down to nested block extractors) are always enough:
   -- `Proofs/C11e.lean`
@@ -308,22 +330,23 @@ def parseText (O : PyOracle) (source : Line) : PM J := do
   if s.locations.any (fun kv => kv.2.length > 1) then valErr "Duplicate passage names"
   validateArgs O passages passages
   if passages.isEmpty then valErr "Story has no passages"
-  let initial ←
-    match s.explicitStart with
-    | some e => if passages.any (·.1 == e) then pure e else valErr "Start passage not found"
-    | none =>
-      if passages.any (·.1 == "Start".toList) then pure "Start".toList
-      else pure (match passages with | (k, _) :: _ => k | [] => [])
+  let initial ← determineInitial s.explicitStart passages
   -- the game enters the initial passage without arguments
   match passages.lookup initial with
-  | some ip =>
-    if ip.params.any (fun p => match p with
-        | .obj kvs => (match kvs.lookup "default" with | some .null => true | _ => false)
-        | _ => false) then valErr "Initial passage has required parameter(s)"
+  | some ip => if hasRequiredParam ip then valErr "Initial passage has required parameter(s)"
   | none => pure ()
-  pure (.obj [("version", jstr "0.1.0"), ("initial_passage", .str initial),
-              ("metadata", .obj (s.metadata.map fun kv => (String.ofList kv.1, .str kv.2))),
-              ("imports", .arr (s.imports.map .str)),
-              ("passages", .obj (passages.map fun kv => (String.ofList kv.1, kv.2.toJ)))])
+  pure { initial, passages, metadata := s.metadata, imports := s.imports }
+
+def Parsed.toJ (p : Parsed) : J :=
+  .obj [("version", jstr "0.1.0"), ("initial_passage", .str p.initial),
+        ("metadata", .obj (p.metadata.map fun kv => (String.ofList kv.1, .str kv.2))),
+        ("imports", .arr (p.imports.map .str)),
+        ("passages", .obj (p.passages.map fun kv => (String.ofList kv.1, kv.2.toJ)))]
+
+/-- `parse(source)` -/
+def parseText (O : PyOracle) (source : Line) : PM J :=
+  match parseStory O source with
+  | .ok p => .ok p.toJ
+  | .error e => .error e
 
 end Bardic.Parser
